@@ -132,6 +132,8 @@ pub fn c03(known: &Known, max_subs: usize) -> CoreScenario {
     }
     ops.push(Op::CSet(A, s("a/b"), json!(3), 0));
     ops.push(Op::CSet(A, s("a/b"), json!(1), 1));
+    // the stored plain value again, as a compare-and-set: the kind changes, the value does not
+    ops.push(Op::CSet(A, s("a/b"), json!(1), 0));
     for p in ["a/?", "a/#"] {
         ops.push(Op::PDelete(A, s(p)));
     }
